@@ -276,11 +276,11 @@ def _jobs(tier):
         return (a // 2 - b // 2) % 8 in (0, 1, 7)
     for sh, n in (("AAG", 2), ("AAGS", 2), ("AGAS", 2), ("AAGA", 3), ("AAGR", 3)):
         for qs in itertools.product(range(16), repeat=n):
-            if tier == "quick" and n == 3 and not near(qs[0], qs[1]):
+            if tier == "quick" and n == 3 and (not near(qs[0], qs[1]) or (qs[2] - qs[0]) % 2):
                 continue
             js.append({"h": "c04.resize", "cfg": {"shape": sh, "qs": list(qs)}, "opts": {"cost": 500, "witnesses": 1}})
     for qs in itertools.product(range(16), repeat=3):
-        if tier == "quick" and not near(qs[0], qs[1]):
+        if tier == "quick" and (not near(qs[0], qs[1]) or (qs[2] - qs[1]) % 2):
             continue
         js.append({"h": "c04.auto", "cfg": {"qs": list(qs)}, "opts": {"cost": 300, "witnesses": 1}})
     for qa in itertools.product(range(8), repeat=2):
